@@ -83,7 +83,7 @@ def _states_str(st: dict, ngrains: int):
 def build_hosted(rng, *, capacity: int, grain: int, ngte: int = 512, states=None, placement: str = "shuffle",
                  tag: int = 1, kind: int = 0, version: int = 1, zero_gte: bool = True, redundant: bool = False,
                  descriptor: str | None = None, align_grains: bool = True, tables_after_data: bool = False,
-                 empty_tables: bool = True, far_sector: int = 0, desc_exact: bool = False):
+                 empty_tables: bool = True, far_sector: int = 0, desc_exact: bool = False, gd_in_footer: bool = False):
     """Plain (non-compressed) hosted sparse extent. states per grain: A / U / Z."""
     ngrains = -(-capacity // grain)
     if states is None:
@@ -175,8 +175,9 @@ def build_hosted(rng, *, capacity: int, grain: int, ngte: int = 512, states=None
     sf.put(layout["gd"] * SECTOR, struct.pack(f"<{ngd}I", *gd))
     if redundant:
         sf.put(layout["rgd"] * SECTOR, struct.pack(f"<{ngd}I", *[layout["rgt"].get(t, 0) for t in range(ngd)]))
-    sf.put(0, kdmv_header(version=version, flags=flags, capacity=capacity, grain=grain, desc_off=desc_off, desc_size=desc_size,
-                          ngte=ngte, rgd_off=layout.get("rgd", 0), gd_off=layout["gd"], overhead=overhead))
+    hdr_kw = dict(version=version, flags=flags, capacity=capacity, grain=grain, desc_off=desc_off, desc_size=desc_size,
+                  ngte=ngte, rgd_off=layout.get("rgd", 0), overhead=overhead)
+    sf.put(0, kdmv_header(gd_off=GD_AT_END if gd_in_footer else layout["gd"], **hdr_kw))
     if desc_bytes:
         sf.put(SECTOR, desc_bytes)
     for g, sg in st.items():
@@ -184,6 +185,13 @@ def build_hosted(rng, *, capacity: int, grain: int, ngte: int = 512, states=None
     for g, p in pos.items():
         sf.put(p * SECTOR, PatternGen(layer, g * grain, grain))
     sf.size = max(sf.end, -(-sf.end // SECTOR) * SECTOR)
+    if gd_in_footer:
+        # the header says "grain directory at the end": the real offset is in the footer copy, 1024 bytes before the end
+        # of the file (footer sector + end-of-stream sector), exactly as in stream-optimized extents but without compression
+        end = sf.size
+        sf.put(end, kdmv_header(gd_off=layout["gd"], **hdr_kw))
+        sf.put(end + SECTOR, b"\0" * SECTOR)
+        sf.size = end + 2 * SECTOR
     meta = {"kind": "hosted", "capacity": capacity, "grain": grain, "ngte": ngte, "states": _states_str(st, ngrains),
             "pos": pos, "flags": flags, "metadata_bytes": SECTOR * (1 + desc_size + (2 if redundant else 1) * (gd_sectors + gt_sectors * sum(1 for x in gts if x))),
             "ngd": ngd, "gd_sector": layout["gd"], "size": capacity * SECTOR}
